@@ -147,6 +147,15 @@ func (m WMsg) build() (any, bool) {
 	switch m.K {
 	case "test":
 		return &remote.TestMessage{Data: []byte(m.D)}, true
+	case "big":
+		// a payload of 1 MiB and a bit (len(D) decides how much more): a size at which transports like
+		// to treat a message specially
+		b := make([]byte, 1<<20+len(m.D))
+		for i := range b {
+			b[i] = byte(i)
+		}
+		copy(b, m.D)
+		return &remote.TestMessage{Data: b}, true
 	case "pid":
 		return &actor.PID{Address: "a" + m.D, ID: m.D}, true
 	case "ping":
@@ -281,6 +290,14 @@ func genWire(t *rapid.T) WCase {
 			}
 		}
 		c.Batches = append(c.Batches, batch)
+	}
+	// one batch in 25 carries one message of a little more than 1 MiB at a generated position
+	if rapid.IntRange(0, 24).Draw(t, "bigmsg") == 0 {
+		b := rapid.IntRange(0, len(c.Batches)-1).Draw(t, "bigbatch")
+		if len(c.Batches[b]) > 0 {
+			i := rapid.IntRange(0, len(c.Batches[b])-1).Draw(t, "bigpos")
+			c.Batches[b][i].K = "big"
+		}
 	}
 	return c
 }
